@@ -1096,6 +1096,24 @@ class FuncAnalysis:
             if head[0] == "ast" and len(head) == 2 and head[1] in AST_CLASSES:
                 self.ctx.resolved_calls += 1
                 return self._new(head[1], args, kws)
+            if tgt in ("itertools.filterfalse", "builtins.filter") and len(args) == 2 and not kws and isinstance(args[0], tuple) and args[0][:1] == ("global",):
+                # filter(pred, xs) / filterfalse(pred, xs) with a package predicate: (x for x in xs if [not] pred(x))
+                pf = m.lookup_target(args[0][1])
+                if isinstance(pf, FuncInfo) and len(pf.pos_params) == 1:
+                    self.ctx.resolved_calls += 1
+                    el = ("elem", args[1])
+                    c_ = strip_sites(self._inline(pf, [el], [], site, depth))
+                    if tgt.endswith("filterfalse"):
+                        c_ = ("op", "Not", (c_,))
+                    return ("comp", "GeneratorExp", el, ((args[1], (c_,)),))
+            if tgt in ("builtins.list", "builtins.tuple") and len(args) == 1 and not kws and isinstance(args[0], tuple) and len(args[0]) == 4 and args[0][0] == "comp" and args[0][1] == "GeneratorExp":
+                self.ctx.resolved_calls += 1
+                return ("comp", "ListComp", args[0][2], args[0][3])  # list(<generator>) has the generator's elements
+            if tgt == "itertools.chain.from_iterable" and len(args) == 1 and not kws:
+                # iterating chain.from_iterable(xss) is iterating `for xs in xss for x in xs`
+                self.ctx.resolved_calls += 1
+                outer = ("elem", args[0])
+                return ("comp", "GeneratorExp", ("elem", outer), ((args[0], ()), (outer, ())))
             r = m.lookup_target(tgt)
             if isinstance(r, FuncInfo):
                 self.ctx.resolved_calls += 1
